@@ -23,7 +23,7 @@ pub struct SignSpec {
     pub keep_order: bool,
     /// header carrier: order of Credential(0) / SignedHeaders(1) / Signature(2)
     pub param_order: [u8; 3],
-    /// header carrier: separator between parameters: 0 ", "  1 ","  2 " , "  3 ",  "  4 ", , " (an empty element)  5 ",,"
+    /// header carrier: separator between parameters: 0 ", "  1 ","  2 " , "  3 ",  "  4 ", , " (an empty element)  5 ",,"  6-8 with horizontal tabs
     pub sep: u8,
     /// query carrier: leave '/', ';' and ':' unescaped in the X-Amz-* values
     pub loose_escapes: bool,
@@ -117,7 +117,10 @@ pub fn attach(base: &WireRequest, cfg: &ServerConfig, spec: &SignSpec, credentia
                 2 => " , ",
                 3 => ",  ",
                 4 => ", , ",
-                _ => ",,",
+                5 => ",,",
+                6 => ",\t",
+                7 => " ,\t ",
+                _ => "\t, ",
             };
             let v = format!(
                 "AWS4-HMAC-SHA256 {}{}{}{}{}",
